@@ -70,6 +70,8 @@ func c12Gen() *symir.Gen {
 		g.Leaves = symir.KScalar | symir.KRef | symir.KEnum
 		g.Kinds = symir.KScalar | symir.KConstScalar | symir.KRef | symir.KArray | symir.KMap | symir.KStruct | symir.KDisjunction
 		g.Width = 1
+		g.UnionWidth = 3
+		g.Leaves |= symir.KNullScalar
 	}
 	return g
 }
@@ -182,6 +184,9 @@ func c12CheckType(d Definition, t ast.Type) {
 		got, _ := d.Get("required").([]string)
 		v.Assert(v.DeepEqualNilEmpty(got, required), "C12: `required` is not exactly the required fields")
 	case ast.KindScalar:
+		if t.Scalar.ScalarKind == ast.KindNull {
+			v.Assert(v.DeepEqual(d.Get("type"), "null"), "C12: a null branch is not described as type null")
+		}
 		for _, c := range t.Scalar.Constraints {
 			key := ""
 			numeric := t.Scalar.ScalarKind != ast.KindString && t.Scalar.ScalarKind != ast.KindBytes
@@ -230,6 +235,14 @@ func c12CheckType(d Definition, t ast.Type) {
 		if len(vals) == len(t.Enum.Values) {
 			for i, m := range t.Enum.Values {
 				v.Assert(v.DeepEqual(vals[i], m.Value), "C12: an enum value is altered")
+			}
+		}
+	case ast.KindDisjunction:
+		branches, _ := d.Get("anyOf").([]Definition)
+		v.Assert(len(branches) == len(t.Disjunction.Branches), "C12: a union is not described by one anyOf entry per branch")
+		if len(branches) == len(t.Disjunction.Branches) {
+			for i, b := range t.Disjunction.Branches {
+				c12CheckType(branches[i], b)
 			}
 		}
 	case ast.KindArray:
